@@ -10,6 +10,8 @@ import (
 	"bytes"
 	"fmt"
 	"strings"
+	"sync"
+	"sync/atomic"
 
 	"cosmossdk.io/math"
 	sdk "github.com/cosmos/cosmos-sdk/types"
@@ -252,58 +254,93 @@ func checkC15(tier string) *Report {
 	}
 	rep.Extra["mutated_payloads"] = len(subset)
 	_ = w.payloadSeeds() // sets the mutator's corpus of known members
-	nm := 0
+	var nmA int64
+	var swg sync.WaitGroup
+	sem := make(chan struct{}, numWorkers())
 	for _, c := range subset {
-		tree, err := jparse(c.Memo)
-		if err != nil {
-			rep.HarnessError("cannot parse own memo: %v", err)
-			continue
-		}
-		for _, m := range SingleMutations(tree, allTypeURLs, allEnumNames) {
-			memo, ok := applyMutations(tree, m)
-			if !ok {
-				continue
+		c := c
+		swg.Add(1)
+		sem <- struct{}{}
+		go func() {
+			defer func() { <-sem; swg.Done() }()
+			parser, _ := adapterctrl.NewIBCParser(w.App.appCodec) // one parser per worker goroutine
+			nm := 0
+			defer func() { atomic.AddInt64(&nmA, int64(nm)) }()
+			tree, err := jparse(c.Memo)
+			if err != nil {
+				rep.HarnessError("cannot parse own memo: %v", err)
+				return
 			}
-			nm++
-			rep.Count("evaluations", 1)
-			pl, perr, pan := parse(parser, memo)
-			sig := "mutation " + trunc(c.Label, 80) + " :: " + m.Name
-			replay := mustJSON(map[string]any{"memo": memo})
-			if pan != nil {
-				rep.Violate(Violation{Kind: "panic", Group: "mutation", Sig: sig, Replay: replay, What: fmt.Sprintf("parser panicked: %v on %s", pan, trunc(memo, 400))})
-				continue
-			}
-			if perr != nil {
-				rep.Outcome("mutant-rejected")
-				continue
-			}
-			rep.Outcome("mutant-accepted")
-			rep.Distinct("acc:" + memo)
-			if ok, why := pref.WellFormed(memo); !ok {
-				rep.Violate(Violation{Kind: "accepted-but-not-well-formed", Group: m.Name[strings.LastIndex(m.Name, " ")+1:], Sig: sig, Replay: replay,
-					What: fmt.Sprintf("parser accepts a memo that is not well-formed (%s): %s  [%s]", why, trunc(memo, 500), m.Name)})
-				continue
-			}
-			// duplicated members: the accepted value must be the one a last-member-wins reader sees
-			if strings.Contains(m.Name, " dup-") {
-				dedup := dedupLastWins(memo)
-				pl2, perr2, _ := parse(parser, dedup)
-				if perr2 != nil || !bytes.Equal(payloadBytes(pl), payloadBytes(pl2)) {
-					rep.Violate(Violation{Kind: "decoders-disagree-on-duplicate-member", Group: "dup", Sig: sig, Replay: replay,
-						What: fmt.Sprintf("memo with a duplicated member is accepted as a different payload than its last-member-wins reading (err=%v): %s", perr2, trunc(memo, 400))})
+			for _, m := range SingleMutations(tree, allTypeURLs, allEnumNames) {
+				memo, ok := applyMutations(tree, m)
+				if !ok {
+					continue
+				}
+				nm++
+				rep.Count("evaluations", 1)
+				pl, perr, pan := parse(parser, memo)
+				sig := "mutation " + trunc(c.Label, 80) + " :: " + m.Name
+				replay := mustJSON(map[string]any{"memo": memo})
+				if pan != nil {
+					rep.Violate(Violation{Kind: "panic", Group: "mutation", Sig: sig, Replay: replay, What: fmt.Sprintf("parser panicked: %v on %s", pan, trunc(memo, 400))})
+					continue
+				}
+				// (3a) purity of the VERDICT and of the payload under repetition. Decoders that collect the members of an
+				// object into a Go map decide ambiguous documents by iteration order; with two candidates the minority
+				// order shows up with p = 1/8 per parse, so documents of the ambiguous kinds (a known member added next to
+				// the ones present, a second spelling of a member) are parsed 64 times (miss probability (7/8)^63 ≈ 2·10⁻⁴ per
+				// document, and every such defect shows in several documents), all others 3 times
+				reps := 2
+				if strings.Contains(m.Name, " +known-member ") || strings.Contains(m.Name, " +alias-") || strings.Contains(m.Name, " dup-") {
+					reps = 63
+				}
+				impure := false
+				for k := 0; k < reps && !impure; k++ {
+					plK, perrK, _ := parse(parser, memo)
+					rep.Count("purity_reparses", 1)
+					if (perrK == nil) != (perr == nil) || (perr == nil && !bytes.Equal(payloadBytes(pl), payloadBytes(plK))) {
+						impure = true
+						rep.Violate(Violation{Kind: "parse-not-pure", Group: "purity", Sig: sig, Replay: replay,
+							What: fmt.Sprintf("parsing the same memo repeatedly gives different results (accepted=%v then accepted=%v, or different payloads): %s", perr == nil, perrK == nil, trunc(memo, 400))})
+					}
+				}
+				if impure {
+					continue
+				}
+				if perr != nil {
+					rep.Outcome("mutant-rejected")
+					continue
+				}
+				rep.Outcome("mutant-accepted")
+				rep.Distinct("acc:" + memo)
+				if ok, why := pref.WellFormed(memo); !ok {
+					rep.Violate(Violation{Kind: "accepted-but-not-well-formed", Group: m.Name[strings.LastIndex(m.Name, " ")+1:], Sig: sig, Replay: replay,
+						What: fmt.Sprintf("parser accepts a memo that is not well-formed (%s): %s  [%s]", why, trunc(memo, 500), m.Name)})
+					continue
+				}
+				// duplicated members: the accepted value must be the one a last-member-wins reader sees
+				if strings.Contains(m.Name, " dup-") {
+					dedup := dedupLastWins(memo)
+					pl2, perr2, _ := parse(parser, dedup)
+					if perr2 != nil || !bytes.Equal(payloadBytes(pl), payloadBytes(pl2)) {
+						rep.Violate(Violation{Kind: "decoders-disagree-on-duplicate-member", Group: "dup", Sig: sig, Replay: replay,
+							What: fmt.Sprintf("memo with a duplicated member is accepted as a different payload than its last-member-wins reading (err=%v): %s", perr2, trunc(memo, 400))})
+					}
+				}
+				// (3) purity: same memo again on a FRESH parser, after other memos on the shared parser
+				parse(parser, c.Memo)
+				parse(parser, `{"orbiter":{}}`)
+				plA, perrA, _ := parse(parser, memo)
+				fresh, _ := adapterctrl.NewIBCParser(w.App.appCodec)
+				plB, perrB, _ := parse(fresh, memo)
+				if perrA != nil || perrB != nil || !bytes.Equal(payloadBytes(pl), payloadBytes(plA)) || !bytes.Equal(payloadBytes(pl), payloadBytes(plB)) {
+					rep.Violate(Violation{Kind: "parse-not-pure", Group: "purity", Sig: sig, Replay: replay, What: "parsing the same memo again (after other memos / on a fresh parser) gives a different result: " + trunc(memo, 300)})
 				}
 			}
-			// (3) purity: same memo again on a FRESH parser, after other memos on the shared parser
-			parse(parser, c.Memo)
-			parse(parser, `{"orbiter":{}}`)
-			plA, perrA, _ := parse(parser, memo)
-			fresh, _ := adapterctrl.NewIBCParser(w.App.appCodec)
-			plB, perrB, _ := parse(fresh, memo)
-			if perrA != nil || perrB != nil || !bytes.Equal(payloadBytes(pl), payloadBytes(plA)) || !bytes.Equal(payloadBytes(pl), payloadBytes(plB)) {
-				rep.Violate(Violation{Kind: "parse-not-pure", Group: "purity", Sig: sig, Replay: replay, What: "parsing the same memo again (after other memos / on a fresh parser) gives a different result: " + trunc(memo, 300)})
-			}
-		}
+		}()
 	}
+	swg.Wait()
+	nm := int(nmA)
 	rep.Extra["mutations"] = nm
 	if w.StateKey(w.Ctx) != stateBefore {
 		rep.Violate(Violation{Kind: "parse-changed-state", Sig: "state", Replay: mustJSON("state"), What: "parsing changed chain state"})
